@@ -230,6 +230,59 @@ theorem reads_equal_after_any_history {db : Db} (hdb : db.Ok) (ops : List Op)
   let r := (acct_history_refines_revm hdb ops hpre h).2
   ⟨r.reads, r.info, r.status⟩
 
+/-- Once the account is cached grevm's code cannot panic, and the account stays cached. -/
+theorem step_total_of_cached (db : Db) (g : G) (op : Op) (h : g.acct.isSome = true) :
+    ∃ g' o, G.step db g op = some (g', o) ∧ g'.acct.isSome = true := by
+  cases hga : g.acct with
+  | none => simp [hga] at h
+  | some ga =>
+    cases op with
+    | basic => exact ⟨_, _, rfl, by simp [G.load]⟩
+    | read k =>
+      obtain ⟨g', hg, hacct, _⟩ := G_read_spec db g k
+      exact ⟨g', _, hg, by rw [hacct, hga]; rfl⟩
+    | selfdestruct => simp only [G.step, hga, Option.map]; exact ⟨_, _, rfl, rfl⟩
+    | create i c => simp only [G.step, hga, Option.map]; exact ⟨_, _, rfl, rfl⟩
+    | touchEmpty => simp only [G.step, hga, Option.map]; exact ⟨_, _, rfl, rfl⟩
+    | change i c => simp only [G.step, hga, Option.map]; exact ⟨_, _, rfl, rfl⟩
+    | increment amt =>
+      by_cases hamt : amt = 0
+      · simp only [G.step, hamt, if_true]; exact ⟨g, _, rfl, h⟩
+      · simp only [G.step, hamt, if_false]; exact ⟨_, _, rfl, rfl⟩
+    | drain =>
+      simp only [G.step]
+      refine ⟨_, _, rfl, ?_⟩
+      simp only [G.applyTouched]; split <;> rfl
+
+theorem run_total_of_cached (db : Db) (ops : List Op) :
+    ∀ g : G, g.acct.isSome = true → ∃ g' outs, G.run db g ops = some (g', outs) := by
+  induction ops with
+  | nil => intro g _; exact ⟨g, [], rfl⟩
+  | cons op rest ih =>
+    intro g h
+    obtain ⟨g1, o, hs, h1⟩ := step_total_of_cached db g op h
+    obtain ⟨g2, os, hr⟩ := ih g1 h1
+    exact ⟨g2, o :: os, by simp [G.run, hs, hr]⟩
+
+/-- **loaded_history_refines_revm.** The hypothesis "grevm does not panic" of
+    `acct_machine_refines_revm` is met by every history that starts by loading the account (as
+    execution does before it can commit it): such a history always runs, and revm's `State`
+    answers it identically. -/
+theorem loaded_history_refines_revm {db : Db} (hdb : db.Ok) (ops : List Op)
+    (hpre : ∀ op ∈ ops, op.Pre) :
+    ∃ g' outs, G.run db G.init (.basic :: ops) = some (g', outs) ∧
+      (S.run db S.init (.basic :: ops)).2 = outs ∧ R db g' (S.run db S.init (.basic :: ops)).1 := by
+  obtain ⟨g1, o, hs, h1⟩ : ∃ g1 o, G.step db G.init .basic = some (g1, o) ∧ g1.acct.isSome = true :=
+    ⟨_, _, rfl, by simp [G.load]⟩
+  obtain ⟨g2, os, hr⟩ := run_total_of_cached db ops g1 h1
+  have hrun : G.run db G.init (.basic :: ops) = some (g2, o :: os) := by simp [G.run, hs, hr]
+  have hpre' : ∀ op ∈ (Op.basic :: ops), op.Pre := by
+    intro op hop
+    rcases List.mem_cons.mp hop with rfl | h
+    · trivial
+    · exact hpre op h
+  exact ⟨g2, o :: os, hrun, acct_history_refines_revm hdb _ hpre' hrun⟩
+
 /-- **storage_known_is_monotone.** No status transition of a committed account makes a
     storage-known account storage-unknown again (so a zero served for an unread slot is never
     retracted in favour of the database). -/
